@@ -219,7 +219,8 @@ fn main() {
         let n = pat.len();
         (0u32..(1 << n)).flat_map(move |mask| {
             let pat = pat.clone();
-            let variants: Vec<u8> = if mask.count_ones() >= 2 { vec![0, 1, 2] } else { vec![0, 2] };
+            // the largest length of the thorough tier: sorted presentation only (2.2e9 instead of 6.7e9 executions)
+            let variants: Vec<u8> = if n >= 7 { vec![0] } else if mask.count_ones() >= 2 { vec![0, 1, 2] } else { vec![0, 2] };
             variants.into_iter().flat_map({
                 let pat = pat.clone();
                 move |v| {
